@@ -15,7 +15,8 @@ RULE = ("for each generated repodata document / metadata file: one traced run nu
         "After every failed call the file must be byte-identical; the sequence of opens of the file must be [read] (failure) or [read, write] (success, the "
         "write coming after the last signature).  non-trivial = a fault point inside the signing loop; distinct by (document, fault point)")
 
-THEOREMS = ["no_write_before_output", "failure_leaves_file", "success_writes_once", "fault_anywhere_before_output", "success_writes_signed_document"]
+THEOREMS = ["no_write_before_output", "failure_leaves_file", "success_writes_once", "fault_anywhere_before_output", "success_writes_signed_document",
+            "gpg_fault_anywhere_before_output", "gpg_failure_leaves_file", "gpg_success_writes_result"]
 
 
 
@@ -360,6 +361,30 @@ def _run(ck: Check, probe) -> None:
                 ck.violation("GPG path: a failure before the output phase left a modified file", {"fault": str(exc)[:200], "events": log2}, "c18-gpg-modified")
                 break
             ck.nontrivial_add(("gpg", mi, p))
+        # the model's step machine of the GPG path on the same file, with what the signer returned: fault-free run = observed result; a fault at
+        # any step before the output phase leaves the file alone (executable counterpart of gpg_fault_anywhere_before_output)
+        hdr_ = gpgshim.hashed_headers(fpr)
+        oh_, sg_, q_ = hdr_.hex(), k.sign(gen.gpg_digest(gen.oracle_bytes(md["signed"]), hdr_)).hex(), k.hex
+        head = f"gpg steps t {proto.enc(oh_)} {proto.enc(sg_)} {proto.enc(q_)} x{orig.hex()} {proto.enc(fpr)} "
+        glines = [head + "-"] + [head + str(kf) for kf in range(0, 12)]
+        for ln, ans in zip(glines, ck.driver.run(glines)):
+            ck.evaluations += 1
+            parts = dict(p.split("=", 1) for p in ans.split(" ")[1:] if "=" in p)
+            res = ans.split(" ")[0]
+            bad = None
+            if ln.endswith(" -"):
+                if not (res == "done" and parts.get("opens") == "rw" and parts.get("file") == gsigned.hex()):
+                    bad = "fault-free run of the GPG step machine differs from the observed run"
+            else:
+                kf = int(ln.rsplit(" ", 1)[1])
+                nsteps = int(parts.get("steps", "0"))
+                if kf < nsteps - 2 and not (res == f"injected:{kf}" and "w" not in parts.get("opens", "") and parts.get("file") == orig.hex()):
+                    bad = "GPG step machine: a fault before the output phase changed the file or opened it for writing"
+            if bad:
+                ck.mismatch_total += 1
+                ck.mismatch_kinds["gpg-step-machine"] = ck.mismatch_kinds.get("gpg-step-machine", 0) + 1
+                if len(ck.mismatches) < 12:
+                    ck.mismatches.append({"corr": "corr:in-place-signing/open-sequence+file-bytes", "line": ln[:600], "impl": bad, "model": ans[:300], "tag": "gpg-steps", "meta": {}, "stdout_encoding": "utf-8"})
         for label, setup in (("signer-error", lambda: gpgshim.FAIL_NEXT.append(ValueError("gpg: signing failed: No secret key"))),
                              ("signer-oserror", lambda: gpgshim.FAIL_NEXT.append(OSError("gpg not found"))),
                              ("unknown-fingerprint", None), ("no-dependency", None), ("bad-fingerprint", None)):
@@ -386,6 +411,16 @@ def _run(ck: Check, probe) -> None:
                 ck.violation("GPG path did not fail although the signer / dependency failed", {"case": label}, "c18-gpg-fault-ignored:" + label)
             if open(mfn, "rb").read() != orig or faults.touches(log3):
                 ck.violation("GPG path: a failed call modified the file", {"case": label, "opens": log3}, "c18-gpg-fault-modified:" + label)
+            if label != "signer-oserror":
+                canned = ("n", "n", "n") if label in ("signer-error", "unknown-fingerprint") else (proto.enc(oh_), proto.enc(sg_), proto.enc(q_))
+                ln = f"gpg steps {'f' if label == 'no-dependency' else 't'} {canned[0]} {canned[1]} {canned[2]} x{orig.hex()} {proto.enc(f)} -"
+                ans = ck.driver.run([ln])[0]
+                parts = dict(p.split("=", 1) for p in ans.split(" ")[1:] if "=" in p)
+                iclass = "failed:" + (impl.classify(exc) if exc else "none")
+                if not (ans.split(" ")[0] == iclass and parts.get("file") == orig.hex() and parts.get("opens") == ("r" if faults.reads(log3) else "")):
+                    ck.mismatch_total += 1
+                    ck.mismatch_kinds["gpg-step-machine:" + label] = 1
+                    ck.mismatches.append({"corr": "corr:in-place-signing/open-sequence+file-bytes", "line": ln[:400], "impl": iclass, "model": ans[:200], "tag": "gpg-" + label, "meta": {}, "stdout_encoding": "utf-8"})
 
 
 def proto_json(doc) -> bytes:
